@@ -50,6 +50,8 @@ def has_ref_data(n):
 def run(ctx, rep):
     for tag, F, E in ctx.each(da=False):
         N = ptrclass.Norm(F)
+        PF = N.handle_ptr_fields  # the pointer field of each handle kind (private names are not hard-wired)
+        fArc, fThin, fOff, fBor = PF.get("Arc"), PF.get("ThinArc"), PF.get("OffsetArc"), PF.get("ArcBorrow")
 
         def nf(h, name, trait=None):
             bs = F.method(h, name, trait)
@@ -95,7 +97,7 @@ def run(ctx, rep):
                 else:
                     rep.bad("R-RAWPAIR", ik, "arc-swap glue %s returns %s, the inherent %s returns %s" % (m, ptrclass.show(x), inh, ptrclass.show(y) if y else None), F.loc(b3), tag)
         # ---------------------------------------------------------- round trips recover the same stored pointer
-        trips = [("Arc", "into_raw", "Arc", "from_raw", "p"), ("Arc", "into_raw", "Arc", "from_raw_slice", "p"), ("ThinArc", "into_raw", "ThinArc", "from_raw", "ptr")]
+        trips = [("Arc", "into_raw", "Arc", "from_raw", fArc), ("Arc", "into_raw", "Arc", "from_raw_slice", fArc), ("ThinArc", "into_raw", "ThinArc", "from_raw", fThin)]
         for h1, out, h2, back, fld in trips:
             b1, o = nf(h1, out)
             bs = F.method(h2, back)
@@ -120,37 +122,37 @@ def run(ctx, rep):
             comp = simp(subst(subst(i, 1, ("H",)), 1, ("H",)))
             # from_raw_offset(x) reads x.ptr: substitute the stored pointer of the OffsetArc built by into_raw_offset
             comp = simp(_replace_stored(i, stored))
-            if comp == ("mk", "Arc", ("stored", ("arg", 1), "p")):
+            if comp == ("mk", "Arc", ("stored", ("arg", 1), fArc)):
                 rep.ok("R-RAWPAIR", "Arc::from_raw_offset(into_raw_offset(h)) = h", cfg=tag)
             else:
                 rep.bad("R-RAWPAIR", "Arc::from_raw_offset(into_raw_offset(h)) = h", "the OffsetArc round trip yields %s" % ptrclass.show(comp), F.loc(b2), tag)
-            if addr_of(stored) == ("data", ("stored", ("arg", 1), "p")):
+            if addr_of(stored) == ("data", ("stored", ("arg", 1), fArc)):
                 rep.ok("R-RAWPAIR", "OffsetArc bit pattern = value address", cfg=tag)
             else:
                 rep.bad("R-RAWPAIR", "OffsetArc bit pattern = value address", "an OffsetArc stores %s, not the address of the value" % ptrclass.show(stored), F.loc(b1), tag)
         # ArcBorrow
         b1, o = nf("Arc", "borrow_arc")
         if b1:
-            if o[0] == "mk" and addr_of(o[2]) == ("data", ("stored", ("arg", 1), "p")):
+            if o[0] == "mk" and addr_of(o[2]) == ("data", ("stored", ("arg", 1), fArc)):
                 rep.ok("R-RAWPAIR", "Arc::borrow_arc stores the value address", cfg=tag)
             else:
                 rep.bad("R-RAWPAIR", "Arc::borrow_arc stores the value address", "borrow_arc stores %s" % ptrclass.show(o), F.loc(b1), tag)
         b1, o = nf("OffsetArc", "borrow_arc")
         if b1:
-            if o == ("mk", "ArcBorrow", ("stored", ("arg", 1), "ptr")):
+            if o == ("mk", "ArcBorrow", ("stored", ("arg", 1), fOff)):
                 rep.ok("R-RAWPAIR", "OffsetArc::borrow_arc forwards the stored value address", cfg=tag)
             else:
                 rep.bad("R-RAWPAIR", "OffsetArc::borrow_arc forwards the stored value address", "stores %s" % ptrclass.show(o), F.loc(b1), tag)
         for name in ("get",):
             b1, o = nf("ArcBorrow", name)
             if b1:
-                if addr_of(o) == ("stored", ("arg", 1), "0"):
+                if addr_of(o) == ("stored", ("arg", 1), fBor):
                     rep.ok("R-RAWPAIR", "ArcBorrow::%s dereferences the stored address" % name, cfg=tag)
                 else:
                     rep.bad("R-RAWPAIR", "ArcBorrow::%s dereferences the stored address" % name, "yields %s" % ptrclass.show(o), F.loc(b1), tag)
         b1, o = nf("ArcBorrow", "clone_arc")
         if b1:
-            if simp(o) == ("mk", "Arc", ("sub_off", ("stored", ("arg", 1), "0"))):
+            if simp(o) == ("mk", "Arc", ("sub_off", ("stored", ("arg", 1), fBor))):
                 rep.ok("R-RAWPAIR", "ArcBorrow::clone_arc recovers the block from the stored value address", cfg=tag)
             else:
                 rep.bad("R-RAWPAIR", "ArcBorrow::clone_arc recovers the block from the stored value address", "yields %s" % ptrclass.show(o), F.loc(b1), tag)
@@ -161,7 +163,7 @@ def run(ctx, rep):
             else:
                 rep.bad("R-RAWPAIR", "ArcBorrow::from_ptr stores the given address", "stores %s" % ptrclass.show(o), F.loc(b1), tag)
         # heap_ptr = block start
-        for h, fld in (("Arc", "p"), ("ThinArc", "ptr")):
+        for h, fld in (("Arc", fArc), ("ThinArc", fThin)):
             b1, o = nf(h, "heap_ptr")
             if b1:
                 if simp(o) == ("stored", ("arg", 1), fld):
